@@ -24,7 +24,7 @@ def run(ctx, chk):
                         "client protocol only"]
     DR.stateless(chk, "C09.stateless", prog, eff)
     n = DR.size_only_feeds_claims(chk, "C09.prefix", prog)
-    chk.floor("C09.prefix", "uses of source_size", n, 40)
+    chk.floor("C09.prefix", "uses of source_size", n, 20)
     n = DR.per_byte(chk, "C09", prog, eff, {"read", "nedata", "nedata-wrap", "claim", "claim-before-read"})
-    chk.floor("C09.read", "per-byte obligations", n, 1500)
+    chk.floor("C09.read", "per-byte obligations", n, 900)
     chk.exhaustive = True
